@@ -29,3 +29,5 @@ m['confirmed_by_me']={'demo_without_patch_exit':$r0,'demo_with_patch_exit':$r1,'
 json.dump(m,open('/verif/seeded/$rec/meta.json','w'),indent=1)
 PY
 echo "confirmed=$ok"
+# build output of a confirmed seed is not needed any more (disk space is limited)
+[ "$KEEP_TARGET" = 1 ] || rm -rf $wt/target
